@@ -24,7 +24,7 @@ const c16Parts = 16
 func (e *C16) ID() string    { return "C16" }
 func (e *C16) Level() string { return "exploration" }
 func (e *C16) Rule() string {
-	return "jobs, each split in 16 parts: (1) MessagePack on every generated type (MarshalMsg/UnmarshalMsg, EncodeMsg/DecodeMsg, Msgsize >= encoded length, no left-over bytes): all 2^8 / 2^16 values of the 8/16-bit types (ImageType, FlashMode, MeteringMode, ExposureMode, ExposureProgram, Flash, Orientation, Compression, ExposureBias, the eight Canon int16 enums), grids plus random bit patterns for the float32 types, Dimensions, Ahash, PHash64, PHash256, FocusDistance; (2) text and encoding/json (value alone and inside a struct) for ImageType, MeteringMode (text and JSON number), ExposureMode, ExposureProgram, ExposureBias (all 65536 encodings), Aperture, FocalLength, ExposureTime, UUID (canonical, hash-like, braced, URN forms x case), hash Encode/Decode with exact-size buffers, UUID binary; every JSON decode is repeated into a target that already holds the previous valid value, and the encoding of the zero value is decoded into a target that holds v (a reused struct must not show what it held); (3) totality: every decoder with an error result (text, JSON, binary, msgp) fed empty, one-byte, truncated-valid, mutated-valid and random input plus the strings m, /, 1/0, +, -/, mm and numbers at the width boundaries of the integer types (255/256, 65535/65536/131072, 2^31, 2^32, 2^63, 2^64, 2^128) alone, as either half of a fraction, as decimals and with unit suffixes. Oracle: Unmarshal(Marshal(v)) == v for valid v (documented enum members, numbers representable at the textual precision, every value for binary forms); Marshal(Unmarshal(Marshal(v))) == Marshal(v) for every v whose encoding the decoder accepts; no panic. Distinct = (type, form, encoded length and leading byte for MessagePack / text length and validity class for text), a measured count of distinct encodings shapes, plus one per job part."
+	return "jobs, each split in 16 parts: (1) MessagePack on every generated type (MarshalMsg/UnmarshalMsg, EncodeMsg/DecodeMsg, Msgsize >= encoded length, no left-over bytes, and both decoders again into a target that holds the previous value): all 2^8 / 2^16 values of the 8/16-bit types (ImageType, FlashMode, MeteringMode, ExposureMode, ExposureProgram, Flash, Orientation, Compression, ExposureBias, the eight Canon int16 enums), grids plus random bit patterns for the float32 types, Dimensions, Ahash, PHash64, PHash256, FocusDistance; (2) text and encoding/json (value alone and inside a struct) for ImageType, MeteringMode (text and JSON number), ExposureMode, ExposureProgram, ExposureBias (all 65536 encodings), Aperture, FocalLength, ExposureTime, UUID (canonical, hash-like, braced, URN forms x case), hash Encode/Decode with exact-size buffers, UUID binary; every JSON decode is repeated into a target that already holds the previous valid value, and the encoding of the zero value is decoded into a target that holds v (a reused struct must not show what it held); (3) totality: every decoder with an error result (text, JSON, binary, msgp) fed empty, one-byte, truncated-valid, mutated-valid and random input plus the strings m, /, 1/0, +, -/, mm and numbers at the width boundaries of the integer types (255/256, 65535/65536/131072, 2^31, 2^32, 2^63, 2^64, 2^128) alone, as either half of a fraction, as decimals and with unit suffixes. Oracle: Unmarshal(Marshal(v)) == v for valid v (documented enum members, numbers representable at the textual precision, every value for binary forms); Marshal(Unmarshal(Marshal(v))) == Marshal(v) for every v whose encoding the decoder accepts; no panic. Distinct = (type, form, encoded length and leading byte for MessagePack / text length and validity class for text), a measured count of distinct encodings shapes, plus one per job part."
 }
 func (e *C16) Assumptions() []string {
 	return []string{"valid values: documented enum members; Aperture/FocalLength multiples of 0.01 below 10000; ExposureTime 1/n for integer n and x.xx >= 1; all 65536 ExposureBias encodings",
@@ -96,6 +96,18 @@ func msgpRT[T comparable, PT msgpPtr[T]](c *core.Ctx, typ string, v T, enc msgpV
 		if err := PT(&out2).DecodeMsg(msgp.NewReader(bytes.NewReader(buf.Bytes()))); err != nil || out2 != v {
 			c16viol(c, "msgp:decode:"+typ, fmt.Sprintf("%s: DecodeMsg(EncodeMsg(%v)) = %v err %v", typ, v, out2, err))
 		}
+		// into a target that already holds the previous value of this type
+		if pv, ok := c16prev["msgp|"+typ]; ok {
+			out3 := pv.(T)
+			if _, err := PT(&out3).UnmarshalMsg(b); err != nil || out3 != v {
+				c16viol(c, "msgp:dirty-target:"+typ, fmt.Sprintf("%s: UnmarshalMsg(MarshalMsg(%v)) into a target that held %v = %v err %v", typ, v, pv, out3, err))
+			}
+			out4 := pv.(T)
+			if err := PT(&out4).DecodeMsg(msgp.NewReader(bytes.NewReader(b))); err != nil || out4 != v {
+				c16viol(c, "msgp:dirty-target:"+typ, fmt.Sprintf("%s: DecodeMsg(EncodeMsg(%v)) into a target that held %v = %v err %v", typ, v, pv, out4, err))
+			}
+		}
+		c16prev["msgp|"+typ] = v
 	})
 	if pk {
 		c16viol(c, "msgp:"+key, fmt.Sprintf("%s(%v) msgp round trip panicked: %s", typ, v, firstLineOf(text)))
